@@ -136,7 +136,7 @@ package scanner
 //@   assigns nothing
 //@
 //@ func (*Scanner).scanComment
-//@   requires inv(s) && s.offset >= 1
+//@   requires inv(s) && s.offset >= 1 && (s.ch == '/' || s.ch == '*')
 //@   assigns s.ch, s.offset, s.rdOffset, s.lineOffset, s.ErrorCount
 //@   ensures inv(s) && s.offset >= old(s.offset)
 //@   ensures [len] len(result) <= s.offset - (old(s.offset)-1)
